@@ -11,6 +11,25 @@ E3 = "bounded exhaustive enumeration of inputs/programs/configurations executed 
 
 # pid -> (technique, level text, level note, design ref)
 CHECKS = {
+    "C07": (
+        E1 + " (exhaustive deviation sets)",
+        "The real Resampler on the virtual loop with the wall clock bound to it: 2 periods x 4 align_to settings x 5 creation phases x "
+        "series added before/after start x every set of up to 2 deviations (timer wake-up k late by 0.3-3.2 periods, sink call k slow "
+        "by 0.5-2.5 periods) over a 10-period horizon; per-series timestamps exactly one period apart, aligned to align_to, first "
+        "within two periods of creation, identical across series, none skipped or duplicated for good.",
+        "resample() re-invoked when it returns/raises as the production caller does; lateness modelled as a late loop wake-up.",
+        "DESIGN.md §3 C07",
+    ),
+    "C08": (
+        E2,
+        "Every operation history of length 5-7 over {receive a sample stamped 0.25-2.5 periods after the previous one (valid/None/NaN), "
+        "tick} for 4-9 (max_data_age, initial_buffer_len) configurations through the real Resampler with a recording resampling "
+        "function: at every tick the function gets exactly the valid samples with T-W < ts <= T among those retained by the "
+        "buffer, in arrival order, never future or invalid samples; value None iff that set is empty; buffer capacity within its "
+        "configured limits.",
+        "Time-ordered input; capacity read from the helper's deque (one internal attribute); sequential delivery.",
+        "DESIGN.md §3 C08",
+    ),
     "C11": (
         E1 + " (exhaustive event histories at quiescence)",
         "The real PowerManagingActor on the virtual loop (proposals, subscriptions, results through its channels; bounds through a "
